@@ -31,3 +31,4 @@ CFG = {'level': 'exploration',
                     ('value:replace', 100), ('value:exclude', 100), ('value:tool', 100), ('value:godebug', 100), ('value:use', 100)]},
  'assumptions': ['comment attachment is not part of "same statements, tokens and comment texts in the same order"',
                  'ref/refsemver decides "versions valid" for the domain restriction of the directive-layer claim']}
+CFG['level_text'] += ' Every Format result is kept, with a private copy, across the Format calls of the next case and must not change; values spelled like grammar tokens (=>, require, go, v1.0.0) are among the exotic paths.'
